@@ -1,0 +1,220 @@
+//go:build verif
+
+package peers
+
+import (
+	"context"
+	"reflect"
+	"sync/atomic"
+	"time"
+
+	"github.com/benbjohnson/clock"
+	"github.com/libp2p/go-libp2p/core/peer"
+)
+
+// Verification hooks and read-only accessors, compiled only with the `verif` build tag. They let an external
+// harness (a) observe -- and, by blocking inside the hook, gate -- every lock operation of pool and timedQueue,
+// (b) construct a pool / timedQueue driven by a mock clock and (c) read their unexported state.
+
+// VerifHooks is the set of callbacks installed by the harness.
+type VerifHooks struct {
+	// Ev is called at every instrumented point. obj is the *pool or *timedQueue (compare with
+	// VerifPool.Raw / RawQueue), ev is "<method>.<point>" with point one of
+	//   enter            before the first lock operation of the method
+	//   locked, rlocked  right after the mutex was acquired (still held)
+	//   unlock, runlock  right before the mutex is released (still held)
+	//   loop, wait, exit next(): about to take the read lock / about to block on the channel / goroutine returns;
+	//                    releaseExpired.exit: the method returns
+	// id is the method's peer argument, if it has one. The hook may block (gate).
+	Ev func(obj any, ev string, id peer.ID)
+	// Spawn is called by a goroutine that is about to start another one; its result is handed to Adopt, called
+	// first thing by the new goroutine (lets the harness attribute the goroutine inside next() to its caller).
+	Spawn func() any
+	Adopt func(tok any)
+}
+
+var verifHooks atomic.Pointer[VerifHooks]
+
+// VerifSetHooks installs (or, with nil, removes) the hooks.
+func VerifSetHooks(h *VerifHooks) { verifHooks.Store(h) }
+
+func verifEv(obj any, ev string, id peer.ID) {
+	if h := verifHooks.Load(); h != nil && h.Ev != nil {
+		h.Ev(obj, ev, id)
+	}
+}
+
+func verifSpawn() any {
+	if h := verifHooks.Load(); h != nil && h.Spawn != nil {
+		return h.Spawn()
+	}
+	return nil
+}
+
+func verifAdopt(tok any) {
+	if h := verifHooks.Load(); h != nil && h.Adopt != nil {
+		h.Adopt(tok)
+	}
+}
+
+// VerifPool gives a harness outside this package access to a pool.
+type VerifPool struct{ p *pool }
+
+// VerifNewPool builds a pool exactly as newPool does and replaces the queue's clock.
+func VerifNewPool(cooldown time.Duration, clk clock.Clock) VerifPool {
+	p := newPool(cooldown)
+	if clk != nil {
+		p.cooldown.clock = clk
+	}
+	return VerifPool{p}
+}
+
+func (v VerifPool) Raw() any      { return v.p }
+func (v VerifPool) RawQueue() any { return v.p.cooldown }
+func (v VerifPool) Valid() bool   { return v.p != nil }
+
+func (v VerifPool) Add(ids ...peer.ID)       { v.p.add(ids...) }
+func (v VerifPool) Remove(ids ...peer.ID)    { v.p.remove(ids...) }
+func (v VerifPool) TryGet() (peer.ID, bool)  { return v.p.tryGet() }
+func (v VerifPool) PutOnCooldown(id peer.ID) { v.p.putOnCooldown(id) }
+func (v VerifPool) Has(id peer.ID) bool      { return v.p.has(id) }
+func (v VerifPool) Len() int                 { return v.p.len() }
+func (v VerifPool) Peers() []peer.ID         { return v.p.peers() }
+func (v VerifPool) SetCleanupThreshold(n int) {
+	v.p.m.Lock()
+	v.p.cleanupThreshold = n
+	v.p.m.Unlock()
+}
+
+// VerifPoolState is a copy of the pool's fields.
+type VerifPoolState struct {
+	PeersList        []peer.ID
+	Statuses         map[peer.ID]int // 0 active, 1 cooldown, 2 removed (absent: no entry)
+	ActiveCount      int
+	NextIdx          int
+	HasPeer          bool
+	HasPeerCh        <-chan struct{} // identity of the current channel (generation)
+	Cooldowns        map[peer.ID]int // pending cool-down entries per peer (nil if the pool does not count them)
+	CleanupThreshold int
+}
+
+// State copies the pool's fields under the read lock.
+func (v VerifPool) State() VerifPoolState {
+	v.p.m.RLock()
+	defer v.p.m.RUnlock()
+	return v.StateUnlocked()
+}
+
+// StateUnlocked copies the fields WITHOUT locking: only for use inside a hook that runs while the calling goroutine
+// holds the pool mutex (events "*.locked", "*.unlock", "*.rlocked", "*.runlock" of the pool).
+func (v VerifPool) StateUnlocked() VerifPoolState {
+	p := v.p
+	st := VerifPoolState{
+		PeersList:        append([]peer.ID(nil), p.peersList...),
+		Statuses:         make(map[peer.ID]int, len(p.statuses)),
+		ActiveCount:      p.activeCount,
+		NextIdx:          p.nextIdx,
+		HasPeer:          p.hasPeer,
+		HasPeerCh:        p.hasPeerCh,
+		CleanupThreshold: p.cleanupThreshold,
+	}
+	for id, s := range p.statuses {
+		st.Statuses[id] = int(s)
+	}
+	st.Cooldowns = verifCooldowns(p)
+	return st
+}
+
+// VerifQueueItem is one entry of the cool-down queue.
+type VerifQueueItem struct {
+	ID        peer.ID
+	CreatedAt time.Time
+}
+
+// Queue copies the queue's items under its mutex.
+func (v VerifPool) Queue() []VerifQueueItem {
+	q := v.p.cooldown
+	q.Lock()
+	defer q.Unlock()
+	return v.QueueUnlocked()
+}
+
+// QueueUnlocked copies the items WITHOUT locking: only inside a hook that runs while the calling goroutine holds
+// the queue mutex (events "push.*", "releaseExpired.locked/unlock").
+func (v VerifPool) QueueUnlocked() []VerifQueueItem {
+	q := v.p.cooldown
+	out := make([]VerifQueueItem, 0, len(q.items))
+	for _, it := range q.items {
+		out = append(out, VerifQueueItem{ID: it.ID, CreatedAt: it.createdAt})
+	}
+	return out
+}
+
+// Next is pool.next.
+func (v VerifPool) Next(ctx context.Context) <-chan peer.ID { return v.p.next(ctx) }
+
+// verifCooldowns reads the pool's per-peer counter of pending cool-down entries (field `cooldowns`) if the pool
+// has one; by reflection, so that this file does not depend on the field's existence.
+func verifCooldowns(p *pool) map[peer.ID]int {
+	f := reflect.ValueOf(p).Elem().FieldByName("cooldowns")
+	if !f.IsValid() || f.Kind() != reflect.Map {
+		return nil
+	}
+	out := make(map[peer.ID]int, f.Len())
+	for it := f.MapRange(); it.Next(); {
+		out[peer.ID(it.Key().String())] = int(it.Value().Int())
+	}
+	return out
+}
+
+// ---- Manager ----
+
+// VerifSyncPool describes one pool of Manager.pools.
+type VerifSyncPool struct {
+	Pool      VerifPool
+	Validated bool
+	Height    uint64
+	CreatedAt time.Time
+}
+
+// VerifNodes returns the manager's pool of discovered nodes.
+func (m *Manager) VerifNodes() VerifPool { return VerifPool{m.nodes} }
+
+// VerifPools returns a snapshot of the manager's pools by data hash.
+func (m *Manager) VerifPools() map[string]VerifSyncPool {
+	m.lock.Lock()
+	defer m.lock.Unlock()
+	out := make(map[string]VerifSyncPool, len(m.pools))
+	for h, p := range m.pools {
+		out[h] = VerifSyncPool{Pool: VerifPool{p.pool}, Validated: p.isValidatedDataHash.Load(), Height: p.height, CreatedAt: p.createdAt}
+	}
+	return out
+}
+
+// VerifAgePool moves the creation time of the pool for hash into the past by d (so that the GC sees it as older
+// than PoolValidationTimeout without waiting). Reports whether the pool exists.
+func (m *Manager) VerifAgePool(hash string, d time.Duration) bool {
+	m.lock.Lock()
+	defer m.lock.Unlock()
+	p, ok := m.pools[hash]
+	if ok {
+		p.createdAt = p.createdAt.Add(-d)
+	}
+	return ok
+}
+
+// VerifGCOnce runs the body of one iteration of Manager.GC.
+func (m *Manager) VerifGCOnce() []peer.ID {
+	blacklist := m.cleanUp()
+	if len(blacklist) > 0 {
+		m.blacklistPeers(reasonInvalidHash, blacklist...)
+	}
+	return blacklist
+}
+
+func (m *Manager) VerifInitialHeight() uint64 { return m.initialHeight.Load() }
+func (m *Manager) VerifStoreFrom() uint64     { return m.storeFrom.Load() }
+func (m *Manager) VerifBlacklistedHash(h string) bool {
+	return m.blacklistedHashes.Contains(h)
+}
+func (m *Manager) VerifBlacklistedPeer(id peer.ID) bool { return m.isBlacklistedPeer(id) }
